@@ -4,6 +4,7 @@ mod api;
 mod calloc;
 mod checkers;
 mod conc;
+mod futx;
 mod hist;
 mod hooks;
 mod model;
@@ -188,6 +189,12 @@ fn main() {
             };
             shard.rule = "run = one concurrent scenario (seeded configuration, scripts and stall plan) followed by the quiescent probe, a seeded teardown and the offline checkers; distinct = hash(configuration shape, per-event thread/op/result and number of overlapping operations of other threads); non-trivial = family rule (steady/view: ring wrapped and a send overlapped a receive; wrap-slow-clone: wrapped and another operation completed while a clone/closure was in progress; last-sender: the end was reported and sends overlapped receives; add-stream: the call overlapped a send (shared: and a sibling receive); remove-stream: a send was refused before the removal; handle-churn: a clone/drop overlapped traffic of another thread; quiesce: send/receive overlap; teardown: ring wrapped)".to_string();
             conc::run_many(&p, &mut shard);
+            write_out(&args, &shard);
+        }
+        "fut" => {
+            let mut shard = report::Shard::new("mq-fut");
+            shard.rule = "run = one futures scenario driven by the harness executor (tasks are polled only when notified) until global quiescence, then every parked task is probe-polled; distinct = hash(configuration shape, per-event thread and result); non-trivial = at least one poll/start_send returned NotReady (a task really parked)".to_string();
+            futx::run_many(args.u64("seed", 1), args.u64("runs", 100), args.u64("budget-ms", 0), args.flag("small"), &mut shard);
             write_out(&args, &shard);
         }
         "wake" => {
